@@ -131,21 +131,21 @@ func physOf(c CacheAPI, unit int64) ([]Phys, bool) {
 // tableInfo projects the underlying table of any container.
 func (a mapAdapter) table(chains bool) (xsync.VerifTable, bool) {
 	if x, ok := a.m.(*xsync.Map); ok {
-		return xsync.VerifProjectMap(x, chains), true
+		return xsync.VerifProjectMap(x, chains, func(v interface{}) string { return anyVals.Dec(v) }), true
 	}
 	return xsync.VerifTable{}, false
 }
 
 func (a mapOfAdapter[K, V]) table(chains bool) (xsync.VerifTable, bool) {
 	if x, ok := a.m.(*xsync.MapOf[K, V]); ok {
-		return xsync.VerifProjectMapOf(x, chains, a.kc.Dec), true
+		return xsync.VerifProjectMapOf(x, chains, a.kc.Dec, a.vc.Dec), true
 	}
 	return xsync.VerifTable{}, false
 }
 
 func (a *cacheAdapter) table(chains bool) (xsync.VerifTable, bool) {
 	if x := cache.VerifUnderlyingMap(a.c); x != nil {
-		return xsync.VerifProjectMap(x, chains), true
+		return xsync.VerifProjectMap(x, chains, nil), true
 	}
 	return xsync.VerifTable{}, false
 }
